@@ -278,9 +278,12 @@ type KnownFinding struct {
 	Property string `json:"property"`
 	Key      string `json:"key"`
 	KeyRegex string `json:"key_regex,omitempty"` // optional: the same construct after the enclosing method was renamed / split
-	Status   string `json:"status"`              // "known" | "fixed"
+	Status   string `json:"status"`              // "known" | "fixed" | "recorded"
 	Commit   string `json:"commit,omitempty"`
 	What     string `json:"what"`
+	// status "recorded": a defect shown against the real code that no static rule decides (why is
+	// given here); printed on every run of the property's check, matched against nothing
+	NotDecided string `json:"not_decided_because,omitempty"`
 }
 
 func loadKnown(verif string) []KnownFinding {
